@@ -1059,7 +1059,7 @@ class Evaluator:
         """`for j in range(n): out.append(v(j))` on an empty list, or `out[j] = v(j)` on a freshly allocated array of n
         elements, is the element-wise array [v(j) | j < n] (what a comprehension would build)"""
         out: Dict[str, Val] = {}
-        if ctx.lo is None or ctx.hi is None or not (ctx.lo == C(0)) or ctx.sym is None:
+        if ctx.lo is None or ctx.hi is None or ctx.sym is None:
             return out
         evs = [e for e in self.events[mark:] if ctx in e.loops]
         if any(len(e.loops) > len(self.loops) + 1 for e in evs if e.kind in ('append', 'store')):
@@ -1068,6 +1068,22 @@ class Evaluator:
         back = {jat: sym.idx()}
         apps = [e for e in evs if e.kind == 'append']
         stores = [e for e in evs if e.kind == 'store']
+        if not (ctx.lo == C(0)):
+            # `for j in range(lo, hi): out.append(v(j))` on a literal list: the list followed by [v(lo + i) | i < hi - lo], one list per appended-to name
+            if apps and not stores and all(not e.guard[len(st.guard):] and not e.data.get('extend') for e in apps):
+                shift = {jat: sym.idx() + ctx.lo}
+                by_name = {}
+                for e in apps:
+                    recv = e.node.func.value if isinstance(e.node, ast.Call) and isinstance(e.node.func, ast.Attribute) else None
+                    by_name.setdefault(recv.id if isinstance(recv, ast.Name) else None, []).append(e)
+                for nm, es in by_name.items():
+                    before = st.env.get(nm) if nm is not None else None
+                    v = es[0].data['value']
+                    if nm is None or len(es) != 1 or not (isinstance(before, Tup) and before.kind == 'list') or not (isinstance(v, Num) and v.length is None):
+                        continue
+                    tail = Num(sym.subst(v.r, shift), ctx.hi - ctx.lo, 'list')
+                    out[nm] = Term('cat', (before, tail), kind='list') if before.items else tail
+            return out
         if len(apps) == 1 and not stores and not apps[0].guard[len(st.guard):] and not apps[0].data.get('extend'):
             e = apps[0]
             recv = e.node.func.value if isinstance(e.node, ast.Call) and isinstance(e.node.func, ast.Attribute) else None
